@@ -309,7 +309,8 @@ pub struct ClassCase {
     /// now - ref_time in ns (negative: reference time in the future)
     pub age_ns: i64,
     /// outcomes fed before (drives the FSM to a starting state): 0 none, 1 sync, 2 sync+unsync, 3 sync+unusable,
-    /// 4 the very same report delivered once before, at the instant of its reference time
+    /// 4 the very same report delivered once before, at the instant of its reference time,
+    /// 5 / 6 sync, then this report, then a poll without reply within (5) / beyond (6) the grace period
     pub prefix: u8,
 }
 
@@ -345,7 +346,7 @@ fn c10_strategy() -> BoxedStrategy<ClassCase> {
         wf_interval(),
         0u8..14,
         any::<u64>(),
-        0u8..5,
+        0u8..7,
     )
         .prop_map(|(leap, interval, sel, rnd, prefix)| ClassCase {
             leap,
@@ -461,6 +462,15 @@ fn check_c10_case(case: &ClassCase, _env: &mut Env) -> Verdict {
         // ... and again now
         vc.set(5_000_000_000_000, NOW_NS as i128);
     }
+    if case.prefix == 5 || case.prefix == 6 {
+        // the report is classified, chronyd then misses a poll, then delivers the same report
+        // again (the virtual clock does not move): its class is the same, and so must be the status
+        v.label("same-class-after-a-missed-poll");
+        up.process_clock_update(tracking_of(&fresh_sync_report()), 0, ts(1_000_000_000));
+        seen_sync = true;
+        up.process_clock_update(tracking_of(&report), 0, ts(2_000_000_000));
+        up.process_missing_clock_update(case.prefix == 5);
+    }
     if case.prefix == 2 {
         let mut r = fresh_sync_report();
         r.leap = 3;
@@ -488,7 +498,7 @@ impl Property for C10 {
     type Case = ClassCase;
     const ID: &'static str = "C10";
     fn rule() -> String {
-        "generated: leap status (biased to 0..7 plus uniform u16) x update interval as a wire float (0, 0.25, 1, 16, 64.9, 1024, random non-negative; negative intervals are outside the domain: an interval is a duration) x reference-time age placed at: future by 1 ns / 1 s, 0, 8I-1ns, 8I, 8I+1ns, floor(8I s)+-1ns, 8I-1s, random x starting FSM state. Enumerated (exhaustive): all 65536 leap values x 12 (interval, age) combinations. Oracle: classification table of the C10 statement in exact rational arithmetic; in the band (8I-1 s, 8I] Synchronized or FreeRunning are both accepted (whole-second threshold resolution). Non-trivial: age within one unit of a threshold, or leap > 2.".into()
+        "generated: leap status (biased to 0..7 plus uniform u16) x update interval as a wire float (0, 0.25, 1, 16, 64.9, 1024, random non-negative; negative intervals are outside the domain: an interval is a duration) x reference-time age placed at: future by 1 ns / 1 s, 0, 8I-1ns, 8I, 8I+1ns, floor(8I s)+-1ns, 8I-1s, random x history before the report (none; sync; sync+unsync; sync+unusable; the same report once before at its reference time; sync + the same report + a missed poll within / beyond the grace period). Enumerated (exhaustive): all 65536 leap values x 12 (interval, age) combinations. Oracle: classification table of the C10 statement in exact rational arithmetic; in the band (8I-1 s, 8I] Synchronized or FreeRunning are both accepted (whole-second threshold resolution). Non-trivial: age within one unit of a threshold, or leap > 2.".into()
     }
     fn assumptions() -> Vec<String> {
         vec!["a synchronised-leap report whose age is within one second below 8 intervals may be classified either way".into()]
@@ -533,7 +543,7 @@ impl Property for C10 {
                     leap,
                     interval: *iv,
                     age_ns: age_for(*iv, *sel, 0),
-                    prefix: (k % 4) as u8,
+                    prefix: ((k as u32 + leap as u32) % 7) as u8,
                 };
                 let vd = check_c10_case(&case, env);
                 ex.evaluations += 1 + vd.sub_evals;
@@ -551,7 +561,7 @@ impl Property for C10 {
             }
         }
         ex.label("enumerated-leap-values-65536");
-        ex.exhaustive_note = Some("leap status: all 65536 values x 12 (interval, age) combinations x 4 FSM prefixes (rotating)".into());
+        ex.exhaustive_note = Some("leap status: all 65536 values x 12 (interval, age) combinations x 7 histories before the report (rotating)".into());
         ex
     }
 }
